@@ -82,20 +82,34 @@ def run(res):
     model = lean_batch(plines)
     bad = 0
     k = 0
+    # "two formulas with different trees never print identically": collisions inside this run, on the implementation
+    seen = {}
+    for (M, t, own, star) in texts:
+        for notation, txt in (('own', own), ('ctls', star)):
+            key = (M, notation, txt)
+            if key in seen and seen[key] != t:
+                direct.append(('%s: two different trees print identically as %r: %s and %s' % (M, txt, tree_str(seen[key]), tree_str(t)), M, t, txt))
+            seen.setdefault(key, t)
+    printer_diffs = []
     for (M, t, own, star) in texts:
         m_own = model[k]
         k += 1
         if own != m_own:
             bad += 1
-            if bad <= 3:
-                res.violation('%s: str(f) = %r, the model prints %r' % (M, own, m_own), {'logic': M, 'formula': sexpr(t), 'impl': own, 'model': m_own})
+            printer_diffs.append((M, t, own, m_own))
         if M == 'CTL':
             if star != model[k]:
                 bad += 1
-                if bad <= 3:
-                    res.violation('CTL formula printed through CTL*: %r, the model prints %r' % (star, model[k]),
-                                  {'logic': 'CTL', 'formula': sexpr(t), 'impl': star, 'model': model[k]})
+                printer_diffs.append((M, t, star, model[k]))
             k += 1
+    for (M, t, a, m) in printer_diffs[:3]:
+        # the printed text is model fidelity; the property is the round trip and injectivity, searched above and below
+        res.violation('%s: str(f) = %r, the model prints %r%s' % (M, a, m, '' if direct else
+                      ' — correspondence Fm.print/printCTL vs __str__ no longer checks; round trip and injectivity hold on '
+                      'every formula of this run'),
+                      {'logic': M, 'formula': sexpr(t), 'impl': a, 'model': m,
+                       'correspondence': 'PMC.Fm.print / printCTL (PMC/Model/Syntax.lean) vs Formula.__str__'},
+                      no_input=not direct)
     lean_parser = have_lean_parser()
     pbad = 0
     if lean_parser:
